@@ -99,7 +99,10 @@ LabelsOnce(q) ==
   \A a, b \in 0..(N(q) - 1) : (Ins(q, a).op = "Label" /\ Ins(q, b).op = "Label" /\ Ins(q, a).lab = Ins(q, b).lab) => a = b
 StmtsAscending(q) ==
   LET ss == Progs[q].stmts IN \A j \in 1..(Len(ss) - 1) : ss[j] <= ss[j + 1]    \* a statement may emit no instruction
-StmtsInRange(q) == \A j \in 1..Len(Progs[q].stmts) : Progs[q].stmts[j] >= 0 /\ Progs[q].stmts[j] <= N(q)
+\* a statement starts inside the list, and never AT the entry label of a procedure (the last statement mark of the
+\* main module stands before its Halt, that of a procedure before its PopRet)
+StmtsInRange(q) == \A j \in 1..Len(Progs[q].stmts) :
+                      LET a == Progs[q].stmts[j] IN a >= 0 /\ a <= N(q) /\ (a < N(q) => ~Ins(q, a).proc)
 \* procedures start at the labels the driver marked proc = TRUE; main is everything before the first one
 ProcStarts(q) == {a \in 0..(N(q) - 1) : Ins(q, a).proc}
 RegionOf(q, a) == LET ps == {b \in ProcStarts(q) : b <= a} IN IF ps = {} THEN 0 - 1 ELSE CHOOSE b \in ps : \A c \in ps : c <= b
